@@ -1,6 +1,7 @@
 package c05
 
 import (
+	"context"
 	"strings"
 	"testing"
 
@@ -47,13 +48,15 @@ func TestPropScripts(t *testing.T) {
 			return
 		}
 		// observation: same statements, two front ends
-		rt := sg.RunTemplate(tm, sg.Opts{PrintLikeGo: true})
+		// (the same deadline as the judged runs: a program that does not terminate must not
+		// hold the shard, and its output must not fill the memory)
+		rt := sg.RunTemplate(tm, sg.Opts{PrintLikeGo: true, Ctx: ctxOf("background")})
 		pp, pres := sg.BuildProgram(p.Src, sg.Opts{})
 		if pres.BuildErr != nil || pres.BuildPanic != nil {
 			return
 		}
-		rp := sg.RunProgram(pp, sg.Opts{})
-		if rt.RunPanic != nil || rp.RunPanic != nil {
+		rp := sg.RunProgram(pp, sg.Opts{Ctx: ctxOf("background")})
+		if rt.RunPanic != nil || rp.RunPanic != nil || rt.RunErr == context.DeadlineExceeded || rp.RunErr == context.DeadlineExceeded {
 			return
 		}
 		if rt.Printed != rp.Printed || (rt.RunErr == nil) != (rp.RunErr == nil) {
